@@ -1,6 +1,9 @@
 (* C09 — the property as an executable checker over what was OBSERVED after
    every event of a history (never over the model's state):
 
+   All clauses refer to the limits CURRENTLY configured: a schema update (ESchema) takes effect
+   with the first observation after it — there is no grace period until the next server answer.
+
    (bound)    the limiter a request meets is of the schema's type and is sized within
               the configured global limit: max-in-flight size <= global max (and no more
               than that many back-to-back admissions), token bucket qps <= global qps and
@@ -76,12 +79,12 @@ Definition bound_ok (c : config) (o : obs) : bool :=
          end
   end.
 
-Definition fallback_ok (st : static) (str : strategy) (o : obs) : bool :=
+Definition fallback_ok (st : static) (c : config) (str : strategy) (o : obs) : bool :=
   if o_evp o then true else
   if eligible st str o then true
   else match o_sel o with
        | SelPanic => true
-       | SelLocal => match o_lim o with Some l => lim_eqb l (local_spec (cfg st)) | None => false end
+       | SelLocal => match o_lim o with Some l => lim_eqb l (local_spec c) | None => false end
        | _ => false
        end.
 
@@ -174,27 +177,32 @@ Definition recovery_ok (c : config) (str : strategy) (maxrt : Z) (prev : obs) (e
   end.
 
 (* clause layout: bound, fallback, inforce, failing, recovery, nopanic *)
-Definition obs_ok (st : static) (str : strategy) (o : obs) : list bool :=
-  [bound_ok (cfg st) o; fallback_ok st str o; inforce_ok st str o; true; true; nopanic_ok o].
+Definition obs_ok (st : static) (c : config) (str : strategy) (o : obs) : list bool :=
+  [bound_ok c o; fallback_ok st c str o; inforce_ok st str o; true; true; nopanic_ok o].
 
-Definition step_ok (st : static) (str str' : strategy) (maxrt : Z) (prev : obs) (e : ev) (o : obs) : list bool :=
-  [bound_ok (cfg st) o; fallback_ok st str' o; inforce_ok st str' o;
-   failing_ok (cfg st) maxrt prev e o; recovery_ok (cfg st) str maxrt prev e o; nopanic_ok o].
+(* c, str: configuration and strategy before the event; c', str': after it *)
+Definition step_ok (st : static) (c c' : config) (str str' : strategy) (maxrt : Z) (prev : obs) (e : ev) (o : obs)
+  : list bool :=
+  [bound_ok c' o; fallback_ok st c' str' o; inforce_ok st str' o;
+   failing_ok c maxrt prev e o; recovery_ok c str maxrt prev e o; nopanic_ok o].
 
 Definition and_lists (a b : list bool) : list bool := map (fun p => (fst p && snd p)%bool) (combine a b).
 Definition all_true : list bool := [true; true; true; true; true; true].
 
 Definition next_str (str : strategy) (e : ev) : strategy := match e with EStrategy x => x | _ => str end.
 Definition next_rt (maxrt : Z) (e : ev) : Z := match e with ECount _ rt => zmax maxrt rt | _ => maxrt end.
+Definition next_cfg (c : config) (e : ev) : config :=
+  match e with ESchema a b g h => {| ck := ck c; l1 := a; l2 := b; g1 := g; g2 := h |} | _ => c end.
 
-Fixpoint hist_ok (st : static) (str : strategy) (maxrt : Z) (prev : obs) (tr : list (ev * obs)) : list bool :=
+Fixpoint hist_ok (st : static) (c : config) (str : strategy) (maxrt : Z) (prev : obs) (tr : list (ev * obs))
+  : list bool :=
   match tr with
   | [] => all_true
   | (e, o) :: r =>
-      and_lists (step_ok st str (next_str str e) maxrt prev e o)
-                (hist_ok st (next_str str e) (next_rt maxrt e) o r)
+      and_lists (step_ok st c (next_cfg c e) str (next_str str e) maxrt prev e o)
+                (hist_ok st (next_cfg c e) (next_str str e) (next_rt maxrt e) o r)
   end.
 
 (* a whole recorded case: the observation right after the schema was created, then the trace *)
 Definition case_ok (st : static) (str0 : strategy) (o0 : obs) (tr : list (ev * obs)) : list bool :=
-  and_lists (obs_ok st str0 o0) (hist_ok st str0 0 o0 tr).
+  and_lists (obs_ok st (cfg st) str0 o0) (hist_ok st (cfg st) str0 0 o0 tr).
